@@ -16,7 +16,7 @@ Conventions (part of the trusted base, DESIGN.md 10.5):
 * a pointer that may be nil is an `Option`; dereferencing nil yields `default` here where Go
   would panic (absence of panics is property C12's business, not the translator's).
 * an error value is `Err kind` - the translated functions are judged on whether and which kind
-  of error they return, not on message texts.
+  of error they return, not on message texts (`errorf` forgets its format string).
 -/
 namespace GoLite
 
@@ -42,15 +42,14 @@ def enum (xs : List α) : List (Int × α) := (List.range xs.length).map (fun (k
 
 def deref [Inhabited α] (p : Option α) : α := p.getD default
 
-/-- error values: a kind (the Go error type, or "error" for fmt.Errorf / errors.New) and the
-format string as written in the source -/
+/-- error values: only the kind is kept (the Go error type, or "error" for fmt.Errorf /
+errors.New); message texts are not modelled, so a reworded message changes nothing here -/
 structure Err where
   kind : String
-  fmt : String
   deriving DecidableEq, Repr, Inhabited
 
-def errorf (fmt : String) : Err := ⟨"error", fmt⟩
-def errT (kind fmt : String) : Err := ⟨kind, fmt⟩
+def errorf (_fmt : String) : Err := ⟨"error"⟩
+def errT (kind _fmt : String) : Err := ⟨kind⟩
 
 /-- a Go map as an association list -/
 abbrev Map (κ ν : Type) := List (κ × ν)
@@ -84,6 +83,10 @@ def isSpace (c : Char) : Bool :=
   c == ' ' || c == '\t' || c == '\n' || c == '\x0b' || c == '\x0c' || c == '\r' || c == '\u0085' || c == '\u00a0'
 def trimSpace (s : String) : String :=
   String.ofList ((s.toList.dropWhile isSpace).reverse.dropWhile isSpace).reverse
+
+/-! ### `Id` computations are plain values -/
+theorem idPure {α : Type} (a : α) : (pure a : Id α) = a := rfl
+theorem idBind {α β : Type} (x : Id α) (f : α → Id β) : x >>= f = f x := rfl
 
 /-! ### counting loops as recursion (used by the tie proofs) -/
 
@@ -138,5 +141,92 @@ theorem loopDown_sim {σ τ : Type} (step : Nat → σ → σ) (abs : τ → σ)
     rw [loopDown, loopDown]
     apply ih (fun k hk => h k (by omega))
     rw [hs, h n (by omega)]
+
+/-! ### search loops -/
+
+/-- `for _, x := range xs { if p(x) { r = &x } }`: the last match wins -/
+theorem forIn_lastMatch {α : Type} (xs : List α) (p : α → Bool) (b : Option α) :
+    (forIn xs b (fun x s => if p x = true then (pure (ForInStep.yield (some x)) : Id _) else pure (ForInStep.yield s))) =
+      pure (match (xs.filter p).getLast? with
+        | some x => some x
+        | none => b) := by
+  induction xs generalizing b with
+  | nil => simp
+  | cons x xs ih =>
+    rw [List.forIn_cons]
+    by_cases hp : p x = true
+    · simp only [hp, if_true, pure_bind, ih, List.filter_cons_of_pos]
+      cases h : (xs.filter p).getLast? with
+      | none =>
+        have : xs.filter p = [] := by simpa using h
+        simp [this]
+      | some y =>
+        have hne : xs.filter p ≠ [] := by intro e; simp [e] at h
+        simp [List.getLast?_cons_of_ne_nil hne, h] <;> simp [List.getLast?_eq_some_getLast hne] at h ⊢ <;> simp_all
+    · simp only [hp, Bool.false_eq_true, if_false, pure_bind, ih]
+      simp [List.filter_cons, hp]
+
+/-- `for _, t := range xs { if t == k { r = t; break } }`: `k` if it occurs, else the start value -/
+theorem forIn_firstEq {α : Type} [BEq α] [LawfulBEq α] (xs : List α) (k d : α) :
+    (forIn xs d (fun t s => if (t == k) = true then (pure (ForInStep.done t) : Id _) else pure (ForInStep.yield s))) =
+      pure (if xs.contains k then k else d) := by
+  induction xs with
+  | nil => simp
+  | cons x xs ih =>
+    rw [List.forIn_cons]
+    by_cases hx : (x == k) = true
+    · have : x = k := by simpa using hx
+      simp [hx, this]
+    · have hx' : (x == k) = false := by simpa using hx
+      have hk : (k == x) = false := by
+        cases h : (k == x) with
+        | false => rfl
+        | true => simp at h; simp [h] at hx
+      simp only [hx', Bool.false_eq_true, if_false, pure_bind, ih, List.contains_cons, hk, Bool.false_or]
+
+/-! ### loops that may stop early (`return` / `break` inside `for .. range`) -/
+
+/-- a fold that stops at the first error, remembering the state it stopped in -/
+def foldE {α τ ε : Type} (step : τ → α → Except ε τ) : List α → τ → Except (τ × ε) τ
+  | [], t => .ok t
+  | a :: l, t =>
+    match step t a with
+    | .ok t' => foldE step l t'
+    | .error e => .error (t, e)
+
+/-- a `for .. range` loop whose body, seen through an abstraction of the loop state, either
+continues with a new abstract state or stops: it is `foldE` of the abstract step -/
+theorem forIn_eq_foldE {α S τ ε : Type} (body : α → S → Id (ForInStep S))
+    (step : τ → α → Except ε τ) (abs : τ → S) (stop : τ → ε → S)
+    (h : ∀ a t, body a (abs t) =
+      pure (match step t a with
+        | .ok t' => ForInStep.yield (abs t')
+        | .error e => ForInStep.done (stop t e)))
+    (l : List α) (t : τ) :
+    forIn l (abs t) body =
+      pure (match foldE step l t with
+        | .ok t' => abs t'
+        | .error (t', e) => stop t' e) := by
+  induction l generalizing t with
+  | nil => simp [foldE]
+  | cons a l ih =>
+    rw [List.forIn_cons, h]
+    cases hs : step t a with
+    | ok t' => simp [foldE, hs, ih]
+    | error e => simp [foldE, hs]
+
+/-- the same for a start state that is only known to be an abstraction -/
+theorem forIn_eq_foldE' {α S τ ε : Type} (body : α → S → Id (ForInStep S))
+    (step : τ → α → Except ε τ) (abs : τ → S) (stop : τ → ε → S)
+    (h : ∀ a t, body a (abs t) =
+      pure (match step t a with
+        | .ok t' => ForInStep.yield (abs t')
+        | .error e => ForInStep.done (stop t e)))
+    (l : List α) (s : S) (t : τ) (hs : s = abs t) :
+    forIn l s body =
+      pure (match foldE step l t with
+        | .ok t' => abs t'
+        | .error (t', e) => stop t' e) := by
+  subst hs; exact forIn_eq_foldE body step abs stop h l t
 
 end GoLite
